@@ -1,4 +1,5 @@
 import NLE.Model.HB
+import NLE.Gen.Shape
 /-!
 # C12 — health-based demotion happens at exactly the configured failure count
 
@@ -153,5 +154,9 @@ theorem health_demotion_exact (m : Nat) (hm : 0 < m) (rs : List Bool) (n : Nat) 
 example : healthDemoteAt 3 0 0 [false, false, true, false, false, false, true] = some 5 := by decide
 example : healthDemoteAt (healthThreshold 0) 0 0 [false, false, false] = some 2 := by decide
 example : healthDemoteAt 1 0 0 [true, false] = some 1 := by decide
+
+/-- AST fact: `becomeLeader` resets the health failure count (the count is per term). -/
+theorem shape : Gen.healthCountResetPerTerm = true := by decide
+
 
 end NLE.Theorems.C12
